@@ -1,10 +1,670 @@
 /-
-  MdModel.Cfi — placeholder (model not written yet).
+  MdModel.Cfi — model of STACK CFI evaluation:
+    * `parse_cfi_exprs`, `eval_cfi_expr`, `walk_with_stack_cfi`   (breakpad-symbols/src/sym_file/walker.rs:493-728)
+    * the rule selection of `SymbolFile::walk_frame`                (breakpad-symbols/src/sym_file/mod.rs:493-521)
+    * `finish_item`'s `add_rules.sort()` and `StackInfoCfi::memory_range` (parser.rs:682-687, types.rs:181-190)
+  parameterised by a `Walker` record — the twin of the mock `FrameWalker` in
+  harness/src/engines/cfi.rs, itself shaped after `CfiStackWalker` (minidump-unwind/src/lib.rs:604-652):
+  callee registers by (aliased) name, a byte image of stack memory read in pointer-sized
+  little-endian words, a pointer width that bounds every value written to the caller, and the
+  caller registers forwarded from the callee.
+
+  Text is `List UInt8` (the Rust code works on the bytes of an ASCII format). An expression is kept as
+  its list of whitespace separated tokens: `parse_cfi_exprs` hands `eval_cfi_expr` the substring from
+  the first to the last token of a rule, which `split_ascii_whitespace` splits into those same tokens.
 -/
 import MdModel.Prelude
 namespace MdModel.Cfi
+open MdModel
 
-/-- line-protocol entry point of this model (engine(s): cfi) -/
-def handle (_engine : String) (_args : List String) : String := "bad-op"
+abbrev Bytes := List UInt8
+abbrev Name := List UInt8
+
+/-! ### tokens -/
+
+/-- `u8::is_ascii_whitespace`: space, `\t`, `\n`, form feed, `\r`. -/
+def isWs (b : UInt8) : Bool := b == 0x20 || b == 0x09 || b == 0x0A || b == 0x0C || b == 0x0D
+
+/-- `str::split_ascii_whitespace`; `cur` is the token being accumulated (reversed). -/
+def splitWsAux : Bytes → Bytes → List Bytes
+  | [], cur => if cur.isEmpty then [] else [cur.reverse]
+  | b :: rest, cur =>
+    if isWs b then
+      if cur.isEmpty then splitWsAux rest [] else cur.reverse :: splitWsAux rest []
+    else splitWsAux rest (b :: cur)
+
+def splitWs (s : Bytes) : List Bytes := splitWsAux s []
+
+inductive BinOp where
+  | add | sub | mul | div | rem | align
+  deriving DecidableEq, Repr
+
+/-- What a token of an expression means (the `match token` of `eval_cfi_expr`). -/
+inductive Tok where
+  | bin (o : BinOp)
+  | deref
+  | cfa
+  | undef
+  | lit (v : UInt64)
+  /-- a callee register: `…$name` (text after the first `$`) or a bare `name`;
+      a name the walker does not know makes the rule fail -/
+  | reg (n : Name)
+  deriving DecidableEq, Repr
+
+def tPlus : Bytes := [0x2B]
+def tMinus : Bytes := [0x2D]
+def tStar : Bytes := [0x2A]
+def tSlash : Bytes := [0x2F]
+def tPercent : Bytes := [0x25]
+def tAt : Bytes := [0x40]
+def tCaret : Bytes := [0x5E]
+def tCfa : Bytes := [0x2E, 0x63, 0x66, 0x61]
+def tRa : Bytes := [0x2E, 0x72, 0x61]
+def tUndef : Bytes := [0x2E, 0x75, 0x6E, 0x64, 0x65, 0x66]
+
+/-- `token.split_once('$')` keeping the part after the first `$`. -/
+def afterDollar : Bytes → Option Bytes
+  | [] => none
+  | b :: rest => if b == 0x24 then some rest else afterDollar rest
+
+def digitVal (b : UInt8) : Option Nat :=
+  if 0x30 ≤ b ∧ b ≤ 0x39 then some (b.toNat - 0x30) else none
+
+/-- all bytes are ASCII digits: their decimal value (unbounded), starting from `acc`. -/
+def parseDigits : Bytes → Nat → Option Nat
+  | [], acc => some acc
+  | b :: rest, acc =>
+    match digitVal b with
+    | some d => parseDigits rest (acc * 10 + d)
+    | none => none
+
+/-- `i64::from_str(token)` followed by `as u64`: an optional single `+`/`-`, at least one digit,
+    digits only, value within `i64`; the result is the two's complement bit pattern. -/
+def parseI64 (t : Bytes) : Option UInt64 :=
+  match t with
+  | [] => none
+  | b :: rest =>
+    if b == 0x2D then
+      if rest.isEmpty then none else
+      match parseDigits rest 0 with
+      | some n => if n ≤ 2^63 then some (UInt64.ofNat (2^64 - n)) else none
+      | none => none
+    else if b == 0x2B then
+      if rest.isEmpty then none else
+      match parseDigits rest 0 with
+      | some n => if n < 2^63 then some (UInt64.ofNat n) else none
+      | none => none
+    else
+      match parseDigits t 0 with
+      | some n => if n < 2^63 then some (UInt64.ofNat n) else none
+      | none => none
+
+/-- The order of the `match` in `eval_cfi_expr`: the seven operators, `.cfa`, `.undef`, then a
+    token containing `$` is the register named after the first `$`, else an `i64` literal, else a
+    bare register name. -/
+def classify (t : Bytes) : Tok :=
+  if t = tPlus then .bin .add
+  else if t = tMinus then .bin .sub
+  else if t = tStar then .bin .mul
+  else if t = tSlash then .bin .div
+  else if t = tPercent then .bin .rem
+  else if t = tAt then .bin .align
+  else if t = tCaret then .deref
+  else if t = tCfa then .cfa
+  else if t = tUndef then .undef
+  else match afterDollar t with
+    | some n => .reg n
+    | none =>
+      match parseI64 t with
+      | some v => .lit v
+      | none => .reg t
+
+/-! ### expression evaluation -/
+
+/-- What an expression can observe of the callee (`get_callee_register`, `get_register_at_address`). -/
+structure Env where
+  reg : Name → Option UInt64
+  deref : UInt64 → Option UInt64
+
+/-- `u64::is_power_of_two` (exactly one bit set). -/
+def isPow2 (x : UInt64) : Bool := (List.range 64).any fun k => x == (1 : UInt64) <<< (UInt64.ofNat k)
+
+def allOnes : UInt64 := 0xFFFFFFFFFFFFFFFF
+
+/-- `lhs & (-1i64 as u64 ^ (rhs - 1))` -/
+def alignDown (l r : UInt64) : UInt64 := l &&& (allOnes ^^^ (r - 1))
+
+/-- One binary operator on `lhs`, `rhs` (wrapping `u64` arithmetic; `/` `%` unsigned;
+    division by zero and alignment to a non-power-of-two fail). -/
+def applyBin (o : BinOp) (l r : UInt64) : Option UInt64 :=
+  match o with
+  | .add => some (l + r)
+  | .sub => some (l - r)
+  | .mul => some (l * r)
+  | .div => if r = 0 then none else some (l / r)
+  | .rem => if r = 0 then none else some (l % r)
+  | .align => if r = 0 || !isPow2 r then none else some (alignDown l r)
+
+/-- The value stack; the head is the top (`Vec::pop` takes the head). -/
+abbrev Stack := List UInt64
+
+def step (env : Env) (cfa : Option UInt64) (t : Tok) (st : Stack) : Option Stack :=
+  match t with
+  | .bin o =>
+    match st with
+    | r :: l :: rest => (applyBin o l r).map (· :: rest)
+    | _ => none
+  | .deref =>
+    match st with
+    | p :: rest => (env.deref p).map (· :: rest)
+    | _ => none
+  | .cfa => cfa.map (· :: st)
+  | .undef => none
+  | .lit v => some (v :: st)
+  | .reg n => (env.reg n).map (· :: st)
+
+def run (env : Env) (cfa : Option UInt64) : List Tok → Stack → Option Stack
+  | [], st => some st
+  | t :: ts, st =>
+    match step env cfa t st with
+    | some st' => run env cfa ts st'
+    | none => none
+
+/-- the final `if stack.len() == 1 { stack.pop() } else { None }` -/
+def single : Option Stack → Option UInt64
+  | some [v] => some v
+  | _ => none
+
+def evalToks (env : Env) (cfa : Option UInt64) (ts : List Tok) : Option UInt64 :=
+  single (run env cfa ts [])
+
+/-- `eval_cfi_expr(expr, walker, cfa)` on the tokens of `expr`. -/
+def evalCfi (env : Env) (cfa : Option UInt64) (toks : List Bytes) : Option UInt64 :=
+  evalToks env cfa (toks.map classify)
+
+/-! #### the same evaluator with every Rust operation that can panic made explicit
+  The only such site in `eval_cfi_expr` is `rhs - 1` in the `@` arm (checked subtraction in a
+  build with overflow checks). `evalCfiO_eq` (MdProofs) shows the panic outcome is unreachable and
+  that the two evaluators agree; the driver runs this one. -/
+
+def checkedSub (a b : UInt64) (site : String) : Outcome UInt64 :=
+  if a < b then .panic site else .ok (a - b)
+
+def applyBinO (o : BinOp) (l r : UInt64) : Outcome (Option UInt64) :=
+  match o with
+  | .align =>
+    if r = 0 || !isPow2 r then .ok none else
+    match checkedSub r 1 "eval_cfi_expr: rhs - 1" with
+    | .ok m => .ok (some (l &&& (allOnes ^^^ m)))
+    | .panic s => .panic s
+  | o => .ok (applyBin o l r)
+
+def stepO (env : Env) (cfa : Option UInt64) (t : Tok) (st : Stack) : Outcome (Option Stack) :=
+  match t, st with
+  | .bin o, r :: l :: rest =>
+    match applyBinO o l r with
+    | .ok v => .ok (v.map (· :: rest))
+    | .panic s => .panic s
+  | t, st => .ok (step env cfa t st)
+
+def runO (env : Env) (cfa : Option UInt64) : List Tok → Stack → Outcome (Option Stack)
+  | [], st => .ok (some st)
+  | t :: ts, st =>
+    match stepO env cfa t st with
+    | .ok (some st') => runO env cfa ts st'
+    | .ok none => .ok none
+    | .panic s => .panic s
+
+def evalCfiO (env : Env) (cfa : Option UInt64) (toks : List Bytes) : Outcome (Option UInt64) :=
+  match runO env cfa (toks.map classify) [] with
+  | .ok r => .ok (single r)
+  | .panic s => .panic s
+
+/-! ### `REG: EXPR` splitting -/
+
+inductive CfiReg where
+  | cfa
+  | ra
+  | other (n : Name)
+  deriving DecidableEq, Repr
+
+abbrev Expr := List Bytes
+/-- The `HashMap<CfiReg, &str>`: at most one entry per key. -/
+abbrev RuleMap := List (CfiReg × Expr)
+
+/-- `HashMap::insert`: replaces an existing entry of the key. -/
+def RuleMap.insert (m : RuleMap) (k : CfiReg) (e : Expr) : RuleMap :=
+  (k, e) :: m.filter (fun p => p.1 ≠ k)
+
+def RuleMap.get (m : RuleMap) (k : CfiReg) : Option Expr :=
+  (m.find? (fun p => p.1 = k)).map (·.2)
+
+/-- `token.strip_suffix(':')` -/
+def stripColon (t : Bytes) : Option Bytes :=
+  match t.reverse with
+  | b :: rest => if b == 0x3A then some rest.reverse else none
+  | [] => none
+
+/-- which register a `REG:` label (colon already stripped) names -/
+def labelOf (t : Bytes) : CfiReg :=
+  if t = tCfa then .cfa
+  else if t = tRa then .ra
+  else match t with
+    | b :: rest => if b == 0x24 then .other rest else .other t
+    | [] => .other t
+
+/-- The loop of `parse_cfi_exprs`: `cur` is `cur_reg`, `expr` the tokens between `expr_first` and
+    `expr_last` (empty ⇔ both `None`). -/
+def parseLoop : List Bytes → Option CfiReg → Expr → RuleMap → Option RuleMap
+  | [], cur, expr, out =>
+    if expr.isEmpty then none else
+    match cur with
+    | some r => some (out.insert r expr)
+    | none => none
+  | tok :: rest, cur, expr, out =>
+    match stripColon tok with
+    | some name =>
+      match cur with
+      | some r =>
+        if expr.isEmpty then none
+        else parseLoop rest (some (labelOf name)) [] (out.insert r expr)
+      | none => parseLoop rest (some (labelOf name)) [] out
+    | none =>
+      match cur with
+      | none => none
+      | some _ => parseLoop rest cur (expr ++ [tok]) out
+
+/-- `parse_cfi_exprs(input, &mut output)` -/
+def parseCfiExprs (input : Bytes) (out : RuleMap) : Option RuleMap :=
+  parseLoop (splitWs input) none [] out
+
+/-- all rule lines, INIT first, into one map -/
+def parseAll : List Bytes → RuleMap → Option RuleMap
+  | [], m => some m
+  | l :: ls, m =>
+    match parseCfiExprs l m with
+    | some m' => parseAll ls m'
+    | none => none
+
+/-! ### the frame walker (mock twin) -/
+
+/-- The caller's frame as the walker records it. -/
+structure Caller where
+  cfa : Option UInt64
+  ra : Option UInt64
+  /-- valid caller registers (canonical names, at most one entry per name) -/
+  regs : List (Name × UInt64)
+  deriving Repr
+
+structure Walker where
+  /-- `get_instruction()` -/
+  instr : Nat
+  /-- register width in bytes (4 or 8): width of memory reads, bound of values written -/
+  ptr : Nat
+  /-- canonical register names (`memoize_register` succeeds on them) -/
+  known : List Name
+  /-- alias ↦ canonical name (`fp` ↦ `x29` …) -/
+  aliases : List (Name × Name)
+  /-- valid callee registers by canonical name -/
+  callee : List (Name × UInt64)
+  memBase : Nat
+  mem : Bytes
+  /-- the caller's registers before CFI runs (callee-saved registers forwarded verbatim) -/
+  fwd : List (Name × UInt64)
+
+def lookupName {α} (l : List (Name × α)) (n : Name) : Option α :=
+  (l.find? (fun p => p.1 = n)).map (·.2)
+
+/-- `memoize_register`: canonical name of a register name, `None` when unknown. -/
+def Walker.memo (w : Walker) (n : Name) : Option Name :=
+  if w.known.contains n then some n else
+  match lookupName w.aliases n with
+  | some c => if w.known.contains c then some c else none
+  | none => none
+
+def Walker.getCallee (w : Walker) (n : Name) : Option UInt64 :=
+  match w.memo n with
+  | some c => lookupName w.callee c
+  | none => none
+
+/-- little-endian value of a byte string -/
+def leVal : Bytes → Nat
+  | [] => 0
+  | b :: rest => b.toNat + 256 * leVal rest
+
+/-- `get_register_at_address`: a pointer-sized little-endian read that must lie inside the image. -/
+def Walker.readMem (w : Walker) (a : UInt64) : Option UInt64 :=
+  if a.toNat < w.memBase then none else
+  let off := a.toNat - w.memBase
+  if off + w.ptr ≤ w.mem.length then some (UInt64.ofNat (leVal ((w.mem.drop off).take w.ptr)))
+  else none
+
+def Walker.env (w : Walker) : Env := ⟨w.getCallee, w.readMem⟩
+
+/-- `C::Register::try_from(val).ok()` succeeds -/
+def Walker.fits (w : Walker) (v : UInt64) : Bool := v.toNat < 2 ^ (8 * w.ptr)
+
+def Walker.caller0 (w : Walker) : Caller := ⟨none, none, w.fwd⟩
+
+def Walker.setCfa (w : Walker) (c : Caller) (v : UInt64) : Option Caller :=
+  if w.fits v then some { c with cfa := some v } else none
+
+def Walker.setRa (w : Walker) (c : Caller) (v : UInt64) : Option Caller :=
+  if w.fits v then some { c with ra := some v } else none
+
+def eraseName (l : List (Name × UInt64)) (n : Name) : List (Name × UInt64) :=
+  l.filter (fun p => p.1 ≠ n)
+
+/-- `set_caller_register`: `None` (nothing changes) for an unknown name or a value that does not
+    fit the register width. -/
+def Walker.setReg (w : Walker) (c : Caller) (n : Name) (v : UInt64) : Option Caller :=
+  match w.memo n with
+  | none => none
+  | some m => if w.fits v then some { c with regs := (m, v) :: eraseName c.regs m } else none
+
+/-- `clear_caller_register` -/
+def Walker.clearReg (w : Walker) (c : Caller) (n : Name) : Caller :=
+  match w.memo n with
+  | none => c
+  | some m => { c with regs := eraseName c.regs m }
+
+def Caller.get (c : Caller) (n : Name) : Option UInt64 := lookupName c.regs n
+
+/-! ### `walk_with_stack_cfi` -/
+
+/-- `str::cmp`: bytewise lexicographic, a proper prefix first. -/
+def bytesLe : Bytes → Bytes → Bool
+  | [], _ => true
+  | _ :: _, [] => false
+  | a :: as, b :: bs => if a < b then true else if b < a then false else bytesLe as bs
+
+def insertBy {α} (le : α → α → Bool) (x : α) : List α → List α
+  | [] => [x]
+  | y :: ys => if le x y then x :: y :: ys else y :: insertBy le x ys
+
+/-- insertion sort (stable: an element is placed before the first strictly greater one is not needed
+    here — the keys sorted by it are pairwise distinct or the elements identical). -/
+def sortBy {α} (le : α → α → Bool) : List α → List α
+  | [] => []
+  | x :: xs => insertBy le x (sortBy le xs)
+
+/-- the entries of the map that are neither `.cfa` nor `.ra` -/
+def others : RuleMap → List (Name × Expr)
+  | [] => []
+  | (.other n, e) :: rest => (n, e) :: others rest
+  | _ :: rest => others rest
+
+/-- `exprs.sort_by(name)` (walker.rs:531-535). -/
+def sortOthers (l : List (Name × Expr)) : List (Name × Expr) :=
+  sortBy (fun a b => bytesLe a.1 b.1) l
+
+/-- one iteration of the loop over the remaining rules: set on success; a failing
+    `set_caller_register` (value does not fit the register, or unknown name) clears the register
+    like a rule that failed to evaluate (fix 15b778b); clear on failure -/
+def applyOther (w : Walker) (cfa : UInt64) (c : Caller) (r : Name × Expr) : Caller :=
+  match evalCfi w.env (some cfa) r.2 with
+  | some v =>
+    match w.setReg c r.1 v with
+    | some c' => c'
+    | none => w.clearReg c r.1
+  | none => w.clearReg c r.1
+
+/-- `walk_with_stack_cfi(init, additional, walker)`; `lines` = INIT rules :: the selected deltas.
+    The iteration order of the hash map is `others m` (any order: see `C06.order_independent`). -/
+def walkCfi (w : Walker) (lines : List Bytes) : Option Caller :=
+  match parseAll lines [] with
+  | none => none
+  | some m =>
+    match m.get .cfa, m.get .ra with
+    | some cfaE, some raE =>
+      match evalCfi w.env none cfaE with
+      | none => none
+      | some cfa =>
+        match evalCfi w.env (some cfa) raE with
+        | none => none
+        | some ra =>
+          match w.setCfa w.caller0 cfa with
+          | none => none
+          | some c1 =>
+            match w.setRa c1 ra with
+            | none => none
+            | some c2 => some ((sortOthers (others m)).foldl (applyOther w cfa) c2)
+    | _, _ => none
+
+/-! #### the same with the panic sites explicit (`unreachable!()` for a `.cfa`/`.ra` key left in
+  the map after both were removed, and the evaluator's checked subtraction) -/
+
+def applyOtherO (w : Walker) (cfa : UInt64) (c : Caller) (r : CfiReg × Expr) : Outcome Caller :=
+  match r.1 with
+  | .other n =>
+    match evalCfiO w.env (some cfa) r.2 with
+    | .ok (some v) =>
+      match w.setReg c n v with
+      | some c' => .ok c'
+      | none => .ok (w.clearReg c n)
+    | .ok none => .ok (w.clearReg c n)
+    | .panic s => .panic s
+  | _ => .panic "walk_with_stack_cfi: unreachable!()"
+
+def foldO {α β} (f : β → α → Outcome β) : List α → β → Outcome β
+  | [], b => .ok b
+  | a :: as, b =>
+    match f b a with
+    | .ok b' => foldO f as b'
+    | .panic s => .panic s
+
+def RuleMap.remove (m : RuleMap) (k : CfiReg) : RuleMap := m.filter (fun p => p.1 ≠ k)
+
+/-- sort key of the remaining entries: `Other(a)` vs `Other(b)` by name, anything else `Equal` -/
+def regLe : CfiReg × Expr → CfiReg × Expr → Bool
+  | (.other a, _), (.other b, _) => bytesLe a b
+  | _, _ => true
+
+def walkCfiO (w : Walker) (lines : List Bytes) : Outcome (Option Caller) :=
+  match parseAll lines [] with
+  | none => .ok none
+  | some m =>
+    match m.get .cfa with
+    | none => .ok none
+    | some cfaE =>
+      let m1 := m.remove .cfa
+      match m1.get .ra with
+      | none => .ok none
+      | some raE =>
+        let m2 := m1.remove .ra
+        match evalCfiO w.env none cfaE with
+        | .panic s => .panic s
+        | .ok none => .ok none
+        | .ok (some cfa) =>
+          match evalCfiO w.env (some cfa) raE with
+          | .panic s => .panic s
+          | .ok none => .ok none
+          | .ok (some ra) =>
+            match w.setCfa w.caller0 cfa with
+            | none => .ok none
+            | some c1 =>
+              match w.setRa c1 ra with
+              | none => .ok none
+              | some c2 =>
+                match foldO (applyOtherO w cfa) (sortBy regLe m2) c2 with
+                | .ok c => .ok (some c)
+                | .panic s => .panic s
+
+/-! ### rule selection (`SymbolFile::walk_frame`) -/
+
+/-- one `STACK CFI INIT` record with its `STACK CFI` delta records in file order -/
+structure CfiRec where
+  addr : Nat
+  size : Nat
+  init : Bytes
+  adds : List (Nat × Bytes)
+
+/-- derived `Ord` of `CfiRules`: by address, then by the rule text -/
+def ruleLe (a b : Nat × Bytes) : Bool :=
+  a.1 < b.1 || (a.1 == b.1 && bytesLe a.2 b.2)
+
+/-- `finish_item`: `cur.add_rules.sort()` -/
+def sortAdds (l : List (Nat × Bytes)) : List (Nat × Bytes) := sortBy ruleLe l
+
+/-- `StackInfoCfi::memory_range().contains(addr)`: `None` for size 0 or an end beyond `u64`
+    (the record is then not in the table at all). -/
+def CfiRec.covers (r : CfiRec) (a : Nat) : Bool :=
+  r.size != 0 && r.addr + r.size ≤ U64MAX && r.addr ≤ a && a ≤ r.addr + r.size - 1
+
+/-- the `while count < len && add_rules[count].address <= addr` prefix -/
+def selectAdds (sorted : List (Nat × Bytes)) (a : Nat) : List (Nat × Bytes) :=
+  sorted.takeWhile (fun r => r.1 ≤ a)
+
+/-- the rule lines handed to `walk_with_stack_cfi` for module-relative address `a` -/
+def linesAt (r : CfiRec) (a : Nat) : List Bytes :=
+  r.init :: (selectAdds (sortAdds r.adds) a).map (·.2)
+
+/-- `SymbolFile::walk_frame` on a symbol file whose only unwind record is `r`. -/
+def walkFrame (r : CfiRec) (base : Nat) (w : Walker) : Option Caller :=
+  if w.instr < base then none else
+  let a := w.instr - base
+  if r.covers a then walkCfi w (linesAt r a) else none
+
+def walkFrameO (r : CfiRec) (base : Nat) (w : Walker) : Outcome (Option Caller) :=
+  if w.instr < base then .ok none else
+  let a := w.instr - base
+  if r.covers a then walkCfiO w (linesAt r a) else .ok none
+
+/-! ### line protocol
+  `cfi walk base:<n> instr:<n> ptr:<4|8> init:<addr>:<size>:<hex rules> adds:<addr>:<hex>;…|-
+            known:<name,…|-> alias:<a=c,…|-> callee:<name=val,…|-> fwd:<name=val,…|-> mem:<base>:<hex>`
+  (numbers decimal, register names of the walker plain ASCII)
+  answer: `none` | `some cfa=<n> ra=<n> regs:<name=val,…>` (valid caller registers sorted by name) | `PANIC`
+-/
+open Proto
+
+def nameOf (s : String) : Name := s.toUTF8.toList
+def showName (n : Name) : String := String.ofList (n.map fun b => Char.ofNat b.toNat)
+
+def stripKey (key : String) (s : String) : Option String :=
+  if s.startsWith key then some ((s.drop key.length).toString) else none
+
+def parsePairs (s : String) : Option (List (Name × Nat)) :=
+  if s == "-" then some [] else
+  (s.splitOn ",").mapM fun p =>
+    match p.splitOn "=" with
+    | [n, v] => if n.isEmpty then none else (optNat v).map fun x => (nameOf n, x)
+    | _ => none
+
+def parseAlias (s : String) : Option (List (Name × Name)) :=
+  if s == "-" then some [] else
+  (s.splitOn ",").mapM fun p =>
+    match p.splitOn "=" with
+    | [a, c] => if a.isEmpty || c.isEmpty then none else some (nameOf a, nameOf c)
+    | _ => none
+
+def parseNames (s : String) : Option (List Name) :=
+  if s == "-" then some [] else
+  (s.splitOn ",").mapM fun p => if p.isEmpty then none else some (nameOf p)
+
+def parseAdds (s : String) : Option (List (Nat × Bytes)) :=
+  if s == "-" then some [] else
+  (s.splitOn ";").mapM fun p =>
+    match p.splitOn ":" with
+    | [a, h] => match optNat a, unhex h with
+      | some a, some b => some (a, b)
+      | _, _ => none
+    | _ => none
+
+def u64s (l : List (Name × Nat)) : Option (List (Name × UInt64)) :=
+  l.mapM fun (n, v) => if v ≤ U64MAX then some (n, UInt64.ofNat v) else none
+
+def showCaller (c : Caller) : String :=
+  let regs := sortBy (fun (a b : Name × UInt64) => bytesLe a.1 b.1) c.regs
+  let f (o : Option UInt64) : String := match o with | some v => toString v.toNat | none => "-"
+  s!"some cfa={f c.cfa} ra={f c.ra} regs:" ++
+    joinWith "," (regs.map fun (n, v) => s!"{showName n}={v.toNat}")
+
+/-- The rules text as the symbol-file parser stores it: the `space1` after the last hex field
+    swallows every leading space/tab of the rest of the line (parser.rs `stack_cfi`,
+    `stack_cfi_init`); the request carries the text as written in the file. -/
+def storedRules (text : Bytes) : Bytes := text.dropWhile fun b => b == 0x20 || b == 0x09
+
+/-- the fields shared by `walk` and `stack` requests -/
+def parseWalkArgs (base instr ptr init adds known al callee fwd mem : String) :
+    Option (CfiRec × Nat × Walker) := do
+  let base ← (stripKey "base:" base).bind optNat
+  let instr ← (stripKey "instr:" instr).bind optNat
+  let ptr ← (stripKey "ptr:" ptr).bind optNat
+  let init ← stripKey "init:" init
+  let (ia, isz, irules) ← match init.splitOn ":" with
+    | [a, s, h] => match optNat a, optNat s, unhex h with
+      | some a, some s, some h => some (a, s, h)
+      | _, _, _ => none
+    | _ => none
+  let adds ← (stripKey "adds:" adds).bind parseAdds
+  let known ← (stripKey "known:" known).bind parseNames
+  let al ← (stripKey "alias:" al).bind parseAlias
+  let callee ← ((stripKey "callee:" callee).bind parsePairs).bind u64s
+  let fwd ← ((stripKey "fwd:" fwd).bind parsePairs).bind u64s
+  let mem ← stripKey "mem:" mem
+  let (mb, mbytes) ← match mem.splitOn ":" with
+    | [b, h] => match optNat b, unhex h with
+      | some b, some h => some (b, h)
+      | _, _ => none
+    | _ => none
+  if !(ptr == 4 || ptr == 8) || instr > U64MAX || base > U64MAX || ia > U64MAX || isz > U32MAX
+      || mb > U64MAX || adds.any (fun a => a.1 > U64MAX) then none else
+  some (⟨ia, isz, storedRules irules, adds.map fun (a, t) => (a, storedRules t)⟩, base, ⟨instr, ptr, known, al, callee, mb, mbytes, fwd⟩)
+
+/-- What the per-architecture glue of minidump-unwind (`get_caller_by_cfi`, `get_caller_frame`,
+    the stack-pointer test of `walk_stack`) does around `walk_frame`, as far as the `stack` cases
+    observe it: the callee's sp must lie in the stack memory; ARM64 strips pointer-authentication
+    bits from pc/lr/fp; a caller whose pc is below 4096 or whose sp did not grow is dropped
+    (ARM: an equal sp is allowed for the context frame). -/
+def stackGlue (w : Walker) (sp : Nat) (leaf : Bool) (strip : Option UInt64) (r : Option Caller) :
+    Option Caller :=
+  if w.mem.isEmpty || w.memBase + w.mem.length - 1 > U64MAX || sp < w.memBase
+      || sp > w.memBase + w.mem.length - 1 then none else
+  match r with
+  | none => none
+  | some c =>
+    let c : Caller := match strip with
+      | none => c
+      | some m => { cfa := c.cfa, ra := c.ra.map (· &&& m),
+                    regs := c.regs.map fun (n, v) =>
+                      if n = nameOf "fp" || n = nameOf "lr" then (n, v &&& m) else (n, v) }
+    match c.cfa, c.ra with
+    | some cfa, some ra =>
+      if ra.toNat < 4096 then none
+      else if cfa.toNat ≤ sp && !(leaf && cfa.toNat == sp) then none
+      else some c
+    | _, _ => none
+
+def handle (_engine : String) (args : List String) : String :=
+  match args with
+  | ["walk", base, instr, ptr, init, adds, known, al, callee, fwd, mem] =>
+    match parseWalkArgs base instr ptr init adds known al callee fwd mem with
+    | none => "bad-op"
+    | some (r, base, w) =>
+      match walkFrameO r base w with
+      | .panic _ => "PANIC"
+      | .ok none => "none"
+      | .ok (some c) => showCaller c
+  | ["stack", _arch, base, instr, ptr, init, adds, known, al, callee, fwd, mem, sp, leaf, strip] =>
+    match parseWalkArgs base instr ptr init adds known al callee fwd mem,
+          (stripKey "sp:" sp).bind optNat, stripKey "leaf:" leaf, stripKey "strip:" strip with
+    | some (r, base, w), some sp, some leaf, some strip =>
+      let strip? : Option (Option UInt64) :=
+        if strip == "-" then some none else
+        match optNat strip with
+        | some m => if m ≤ U64MAX then some (some (UInt64.ofNat m)) else none
+        | none => none
+      match strip?, leaf == "0" || leaf == "1" with
+      | some strip, true =>
+        match walkFrameO r base w with
+        | .panic _ => "PANIC"
+        | .ok res =>
+          match stackGlue w sp (leaf == "1") strip res with
+          | none => "nocfi"
+          | some c => showCaller c
+      | _, _ => "bad-op"
+    | _, _, _, _ => "bad-op"
+  | _ => "bad-op"
 
 end MdModel.Cfi
